@@ -337,6 +337,17 @@ def _seqdiff(_):
     return st
 
 
+def _long_job(_):
+    """a column longer than any internal block size (5 000 rows) whose maximum sits near the end"""
+    st = Stats()
+    cells = [str((i * 7) % 13) for i in range(4990)] + ['40', '0.5', '', '96', '97', '-1', '1e3', '64', '0.16', '2']
+    for preset in ('minimal', 'default', 'fw-transformers'):
+        for sig, msg in judge_column(tuple(cells), preset, st):
+            st.violation({'kind': 'long', 'preset': preset}, msg[:500], dict(sig, long=True))
+        st.count('long_columns')
+    return st
+
+
 REUSE_COLS = [('1', '2', '4', '0.5'), ('', '"3"', '9', '0.02'), ('5', '6', '1', '0.16'), ('2', '2', '3', '1'), ('1', '2', '4', '0.5')]
 
 
@@ -381,6 +392,8 @@ def _dispatch(item):
     k, job = item
     if k == 'reuse':
         return _reuse_job(job)
+    if k == 'long':
+        return _long_job(job)
     if k == 'seqdiff':
         return _seqdiff(job)
     return {'cols': _cols_job, 'probe': _probe_job, 'rule': _rule_job, 'presets': _presets_job}[k](job)
@@ -406,6 +419,7 @@ def run(ctx):
     jobs.append(('presets', None))
     jobs.append(('seqdiff', None))
     jobs.append(('reuse', None))
+    jobs.append(('long', None))
     for st in pmap(_dispatch, jobs):
         ctx.stats.merge(st)
     ctx.extra['fw_column_length'] = maxlen
@@ -418,6 +432,8 @@ def eval_case(case):
     st = Stats()
     if case['kind'] == 'seqdiff':
         return seqdiff.replay(seq_call, SEQ_MENU, case['seq'])
+    if case['kind'] == 'long':
+        return [v['what'] for v in _long_job(None).violations if v['case']['preset'] == case['preset']]
     if case['kind'] == 'reuse':
         return [v['what'] for v in _reuse_job(None).violations]
     if case['kind'] == 'preset':
